@@ -63,6 +63,7 @@ THEOREMS = ['CpProofs.C16.' + t for t in (
     'flow_gen_200_body', 'flow_304_no_body', 'flow_buffered_304_no_body', 'not_flow_304_no_body_full',
     'flow_412_no_entity', 'flow_304_getHead', 'flow_non2xx_untouched', 'flow_file_stream', 'respondX_ignores_ifRange',
     'since_on_304', 'since_on_412', 'flow_handler_304_412', 'flow_raise_discards_entity',
+    'respondX_conds_perm', 'respondX_from_header_texts', 'respondX_from_plain_texts',
     # HeaderMap.elements in full: parameters, unquoting, stable sort + reversal, str()
     'sortStable_perm', 'elementsFull_perm', 'elementsFull_mem', 'ltText_trans', 'sortStable_sorted',
     'elementsFull_descending', 'validateEtags_perm', 'sorting_irrelevant', 'parseElement_plain', 'parsed_plain',
